@@ -324,6 +324,23 @@ def check_C10(c):
     c.rep.assumptions = ["a repeat that leaves no element is left open (the library has no empty tensors)", "a refusal of a fitting input is accepted"]
 
 
+def check_C14(c):
+    q = c.quick
+    inv = ["TypeOK", "CopiesDisjoint", "Emit"]
+    lays = ("C", "F", "T", "Row", "Col") if q else ("C", "F", "Fconv", "T", "Tp", "FT", "Row", "Col", "Step", "FCol")
+    k = dict(MinRank=0, MaxRank=3 if q else 4, MaxDim=3 if q else 3, MaxDimHi=2, HiRank=3 if q else 4, Lays={S(x) for x in lays},
+             Formats={S(x) for x in ("gob", "npy", "csv", "pb", "fb")}, WithMasks=True)
+    cases = c.tlc("MC_io", "io", k, inv)
+    c.replay("io", cases, dtypes="all", pals="ident,signed,edge,nonfinite", rotate=6 if q else 0, extra=(["-palrotate", "2"] if q else []))
+    c.rep.rule = ("TLC enumerates {gob, npy, csv, protobuf, flatbuffers} x shapes of rank 0-4 incl. scalars and length-one axes x layouts "
+                  "{contiguous, column-major, lazily transposed, contiguous window, inner slice (thorough: more)} and every mask over <=6 "
+                  "elements; the real encoder/decoder pair is run for every element type with palettes containing extremes and non-finite "
+                  "values; the decoded tensor must have the same element type, shape, logical elements (and mask where the format carries "
+                  "one; the fill value otherwise), or the ENCODER must refuse; bytes that cannot be decoded are a divergence")
+    c.rep.assumptions = ["byte-level format fidelity (e.g. that NumPy itself reads the .npy bytes) is outside the model: only the round trip is checked",
+                         "csv is read back with As(<element type>)"]
+
+
 def mask_consts(q, mode):
     suffix = "-q" if q else "-t"
     if mode == "iter":
@@ -382,7 +399,7 @@ def check_C05(c):
     c.rep.assumptions = ["Coord() after exhaustion is not specified and not compared", "the masked multi-iterator's validity stepping is outside the statement"]
 
 
-CHECKS = {"C01": check_C01, "C02": check_C02, "C03": check_C03, "C04": check_C04, "C13": check_C13, "C06": check_C06, "C07": check_C07, "C11": check_C11, "C12": check_C12, "C08": check_C08, "C09": check_C09, "C10": check_C10, "C05": check_C05, "C15": check_C15}
+CHECKS = {"C01": check_C01, "C02": check_C02, "C03": check_C03, "C04": check_C04, "C13": check_C13, "C06": check_C06, "C07": check_C07, "C11": check_C11, "C12": check_C12, "C08": check_C08, "C09": check_C09, "C10": check_C10, "C05": check_C05, "C15": check_C15, "C14": check_C14}
 
 HOOK_COMMITS = []
 NOT_YET = {}
@@ -439,6 +456,10 @@ LEVELS = {
             "technique": "TLC-enumerated mask behaviours (MC_mask: every mask over small shapes; invariant SteppingPartitions) replayed; masks read back with MaskAt",
             "text": "bounded exhaustive model checking: the specification keeps a mask with the storage so that it travels with its elements by construction; TLC enumerates every mask in bounds and computes counts, runs, edges, filled values, predicate masks (as truth-valued terms) and stepping results; the replayer compares each with the library",
             "note": "bounded (masks over <=10 elements)"},
+    "C14": {"ref": "DESIGN.md 4 C14",
+            "technique": "TLC-enumerated encode/decode behaviours (MC_io over RoundTripT in Tensor.tla) replayed with the real encoders and decoders",
+            "text": "bounded exhaustive model checking of the structure (format x shape x layout x mask); the wire value is abstract in the specification, the replayer runs the real encoder and decoder and compares the decoded tensor with the specification's logical content",
+            "note": "bounded (rank<=4, dims<=3); byte-level fidelity is opaque to the model"},
     "C01": {"ref": "DESIGN.md 4 C01",
             "technique": "TLC-enumerated behaviours of the TLA+ tensor machine (MC_addr) replayed on the real library",
             "text": "bounded exhaustive model checking: TLC enumerates every shape/constructor/layout in bounds and the complete coordinate->cell table of each; every table entry is executed (At and SetAt) on the real tensor for every element type, with a full snapshot of all storage around each write",
